@@ -208,7 +208,7 @@ fn raw_apply<E: Endianness, W: WrAll<E>>(w: &mut W, op: &WOp) -> WObs {
         WOp::Zeta3P { t: true, v } => r(w.write_zeta3_param::<true>(*v)),
         WOp::ZetaP { t: false, k, v } => r(w.write_zeta_param::<false>(*v, *k as usize)),
         WOp::ZetaP { t: true, k, v } => r(w.write_zeta_param::<true>(*v, *k as usize)),
-        WOp::IoWrite(b) => match w.io_write(b) {
+        WOp::IoWrite(b) => match w.io_write(crate::util::AlignedBytes::from(b).as_slice()) {
             None => WObs::Unsupported,
             Some(Ok(n)) => WObs::Ret(n),
             Some(Err(e)) => WObs::Err(format!("{e}")),
